@@ -36,6 +36,33 @@ def run(chk: Check, proj: Project) -> None:
     s3(chk, proj)
     s4(chk, proj)
     s5_accessors(chk, proj, ["STATIC_FILES_ALLOWED", "STATIC_FILES_FORBIDDEN", "DIRS", "APP_DIRS"])
+    s6_raw_settings_forms(chk, proj)
+
+
+def s6_raw_settings_forms(chk: Check, proj: Project) -> None:
+    chk.rule("S6", "every reader of the raw COMPONENTS setting handles BOTH documented forms (a dict and a ComponentsSettings instance)")
+    n = 0
+    for m, q, f in proj.all_funcs():
+        raw = [c for c in calls(f, "getattr") if len(c.args) >= 2 and isinstance(c.args[1], ast.Constant) and c.args[1].value == "COMPONENTS" and norm(c.args[0]).split(".")[-1] == "settings"]
+        for c in raw:
+            st = enclosing_stmt(c)
+            var = st.targets[0].id if isinstance(st, ast.Assign) and isinstance(st.targets[0], ast.Name) else None
+            if var is None:
+                continue
+            n += 1
+            chk.analysed(f"{m.name}:{q}")
+            tests = set()
+            for x in ast.walk(f):
+                if isinstance(x, ast.Call) and norm(x.func) == "isinstance" and len(x.args) == 2 and norm(x.args[0]) == var:
+                    for t in (x.args[1].elts if isinstance(x.args[1], ast.Tuple) else [x.args[1]]):
+                        tests.add(norm(t).split(".")[-1])
+            as_dict = "dict" in tests or "Mapping" in tests or any(isinstance(x, ast.keyword) and x.arg is None and norm(x.value) == var for x in ast.walk(f))
+            as_obj = "ComponentsSettings" in tests
+            ok = as_dict and as_obj
+            chk.ob("S6", f"{m.name.replace('django_components.', '')}:{q}:both-setting-forms", m.loc(c), ok,
+                   f"`{var}` is handled as a dict and as a ComponentsSettings instance" if ok else
+                   f"`{var}` (settings.COMPONENTS) is handled only as {'a dict' if as_dict else 'a ComponentsSettings instance' if as_obj else 'neither form'}: with the other documented form `dirs` counts as unset, the finder falls back to STATICFILES_DIRS and exposes files outside the component directories")
+    chk.floor("S6", n, 2)
 
 
 def _escaped(proj: Project, m, f, e: ast.AST, depth: int = 0) -> Optional[ast.AST]:
